@@ -488,11 +488,15 @@ class Polynomial(Vector):
         #
         # dx/dt = -Sum_j dc[j]/dt x**j / Sum_j c[j] j x**(j-1)
 
-        if recursive:
+        if recursive and self._derivs_:
+
+            # Keep the values hidden under the mask out of the arithmetic;
+            # sort() can leave infinities there
+            x = roots.mask_where(roots.mask, replace=0.)
+
             for (key, value) in self._derivs_.items():
-                deriv = (-value.eval(roots, recursive=False) /
-                         self.deriv(recursive=False).eval(roots,
-                                                          recursive=False))
+                deriv = (-value.eval(x, recursive=False) /
+                         self.deriv(recursive=False).eval(x, recursive=False))
                 roots.insert_deriv(key, deriv)
 
         return roots
